@@ -17,7 +17,7 @@ def _readers(ctx, binary, prof, cases, cpath):
         if os.path.exists(p):
             os.remove(p)
     res = ctx.isolated(binary, ["readers", cpath, opath, tpath], len(cases), opath,
-                       per_case_timeout=ctx.pick(20.0, 60.0))
+                       per_case_timeout=60.0)
     if len(res) != len(cases):
         raise vlib.ToolError("readers: %d results for %d cases" % (len(res), len(cases)))
     return res, tpath
@@ -78,9 +78,10 @@ def run(ctx):
     bins = tc.both_profiles(ctx)
     env = {"VERIF_TIER": ctx.tier}
     # texture lists (3DS containers, TPL) x placements (CTPK + BCH + CGFX, TPL)
-    l3, lt = ctx.pick((9, 6), (19, 13))
+    # (thorough: the lists with a 64 KiB payload - 3 for the 3DS containers, 1 for TPL - get every 8th placement)
+    l3, lt = ctx.pick((12, 10), (24, 17))
     p3, pt = ctx.pick((9, 3), (104, 18))
-    n_cases = l3 * p3 + lt * pt
+    n_cases = ctx.pick(l3 * p3 + lt * pt, (l3 - 3) * p3 + 3 * 14 + (lt - 1) * pt + 3)
     # 1. laws on the model
     r = ctx.tlc("MC_TexContainers", "MC_TexContainers.cfg", env=env, workers=tc.TLC_WORKERS)
     if r.distinct < n_cases + 1:
